@@ -92,7 +92,7 @@ def c02_runs(tier):
     else:
         for set_ in SETS:
             for slm in (1, 4):  # every step x every wait
-                add(set_, 1, slm, '?1', '?', 1, alpha=c02_alpha(1, True), budget=200)
+                add(set_, 1, slm, '?1', '?', 1, alpha=c02_alpha(1, True), budget=300)
             k = 0
             for p in progs1:
                 add(set_, 1, (1, 4)[k % 2], p, '?', 1, budget=90)
